@@ -179,8 +179,8 @@ fn judge_parse(real: &Real, base: &M, input: &str, out: &Outcome) -> (Verdict, b
     }
 }
 
-const TOKENS: [&str; 27] = [
-    "(", ")", "1", "16777217", "-7", "+5", "2147483648", "1.5", "1e3", "inf", "NaN", "TRUE", "FALSE", "true", "foo", "INTEGER.+", "INT[1,2]", "INT[]", "INT[", "INT[x]", "INT[1,é", "BOOL[1,0]", "BOOL[2]", "BOOL[", "FLOAT[1.5,inf]", "FLOAT[", "é",
+const TOKENS: [&str; 31] = [
+    "(", ")", "1", "16777217", "-2147483648", "-1000000000", "+2147483647", "00000000042", "-7", "+5", "2147483648", "1.5", "1e3", "inf", "NaN", "TRUE", "FALSE", "true", "foo", "INTEGER.+", "INT[1,2]", "INT[]", "INT[", "INT[x]", "INT[1,é", "BOOL[1,0]", "BOOL[2]", "BOOL[", "FLOAT[1.5,inf]", "FLOAT[", "é",
 ];
 const CHARS: [char; 11] = ['I', 'N', 'T', '[', ']', '(', ')', ',', '1', ' ', 'é'];
 
@@ -320,6 +320,14 @@ fn print_routes(real: &mut Real, t: &Tree) -> Result<Vec<(&'static str, String, 
         st.to_string()
     })?;
     out.push(("PushStack::to_string", s2, neighbours.clone()));
+    // 2b. a deep stack: the item under 12 others
+    let mut deep: Vec<Tree> = (0..12).map(|k| Tree::I(100 + k)).collect();
+    deep.push(t.clone());
+    let s2b = guarded(|| {
+        let st: PushStack<pushr::push::item::Item> = PushStack::from_vec(deep.iter().rev().map(item_of).collect());
+        st.to_string()
+    })?;
+    out.push(("PushStack::to_string (deep)", s2b, deep.clone()));
     // 3. CODE.PRINT through the interpreter
     let mut m = M::default();
     m.c = neighbours.clone();
@@ -338,7 +346,14 @@ fn print_routes(real: &mut Real, t: &Tree) -> Result<Vec<(&'static str, String, 
 pub fn roundtrip(ctx: &mut Ctx, floats: bool) {
     let mut real = Real::new();
     let s = if ctx.tier_thorough { 5 } else { 4 };
-    let trees = trees_up_to(s, &if floats { atoms_float() } else { atoms_exact() });
+    let mut trees = trees_up_to(s, &if floats { atoms_float() } else { atoms_exact() });
+    // wide lists (direct element counts around 10, 16, 32, 100), also nested
+    for n in [9usize, 10, 11, 12, 16, 17, 33, 100, 101] {
+        let leaf = |k: usize| if floats { Tree::F(k as f32 + 0.5) } else { Tree::I(k as i32) };
+        trees.push(Tree::L((0..n).map(leaf).collect()));
+        trees.push(Tree::L(vec![Tree::name("A"), Tree::L((0..n).map(leaf).collect()), Tree::L(vec![])]));
+        trees.push(Tree::L((0..n).map(|k| if k % 4 == 1 { Tree::L(vec![leaf(k), Tree::L(vec![])]) } else { leaf(k) }).collect()));
+    }
     ctx.extra.push(("trees".into(), crate::core::J::Int(trees.len() as i64)));
     for t in &trees {
         let id = match ctx.take() {
